@@ -18,6 +18,7 @@ func init() {
 		Real:           []string{"rotation loop and migrateReports", "impact-rate loop (repo's test stub for the WattTime value)", "AllDeviceStatsHandler/buildDeviceStats", "allDeviceStats.dat persistence and load", "report/authorization paths"},
 		Stub:           []string{"WattTime service (repo's own test-mode stub)", "socket listeners"},
 		RequiredProbes: []string{"hist.rotation", "hist.stats-archived", "hist.stats-archived-falseneg", "hist.restart", "hist.multi-rotation", "c03.ban-before-rotation"},
+		RequiredSites:  []string{"migrate.before-shift", "migrate.after-shift", "stats.after-write", "migrate.wake", "stats.postlock"},
 	})
 }
 
